@@ -173,6 +173,35 @@ fn run_case(rt: &tokio::runtime::Runtime, case: &Case) -> RunResult {
         }
 
         // ---- direct oracle on the implementation ----
+        // no peer is kept with an empty queue (front().unwrap() sites rely on it), and the
+        // statistics line of every peer agrees with its queue
+        let stats = st.get_stats();
+        for (p, v) in &snap {
+            if v.is_empty() {
+                res.oracle_failures
+                    .push(format!("op {}: peer {} is kept with an empty queue", k, p));
+                continue;
+            }
+            let want = format!(
+                "peer : {:?} lowest_id: {:?} fetching_count : {:?} ordered_till : {:?} ",
+                p,
+                v.first().unwrap().0,
+                v.iter().filter(|e| e.2 == 1).count(),
+                v.last().unwrap().0
+            );
+            if !stats.iter().any(|l| l.contains(&want)) {
+                res.oracle_failures.push(format!(
+                    "op {}: get_stats has no line '{}' (lines: {:?})",
+                    k,
+                    want.trim(),
+                    stats.iter().map(|l| l.trim_start_matches("routing::sync_state").trim().to_string()).collect::<Vec<_>>()
+                ));
+            }
+        }
+        if stats.len() != snap.len() {
+            res.oracle_failures
+                .push(format!("op {}: get_stats reports {} peers, {} are tracked", k, stats.len(), snap.len()));
+        }
         match op {
             Op::Fetched { hash } | Op::Remove { hash } => in_flight.retain(|x| x.2 != *hash),
             Op::Failed { id, hash, peer } => {
